@@ -204,11 +204,15 @@ func RegisterSV(ld *Loaded) {
 		fr.i.path.mapNondet = args[1].(bool)
 		return nil
 	})
+	reg("EnvOther", func(fr *frame, args []value) value {
+		fr.i.path.envOther = fr.i.path.concreteString(args[1], "env value")
+		return nil
+	})
 	reg("Setenv", func(fr *frame, args []value) value {
 		p := fr.i.path
 		if _, sym := args[1].(symString); sym {
-			// clearing a variable whose name is symbolic: every variable the
-			// harness did not set is unset in the model anyway
+			// a variable whose name is symbolic
+			p.envSym = append(p.envSym, envEntry{name: args[1], val: p.concreteString(args[2], "env value")})
 			return nil
 		}
 		p.env[p.concreteString(args[1], "env name")] = p.concreteString(args[2], "env value")
@@ -460,6 +464,12 @@ func (p *Path) modelMap(mv map[*Term]uint64) map[string]string {
 		}
 		if v, ok := mv[in.T]; ok {
 			m[in.Name] = litOf(in.Kind, v)
+		}
+	}
+	// variables of the adversarial environment that the code asked for
+	for _, r := range p.envReads {
+		if name, ok := p.evalObsVal(r.name, mv).(string); ok {
+			m["env:"+name] = r.val
 		}
 	}
 	return m
